@@ -43,7 +43,7 @@ class Impl:
     # ------------------------------------------------------------ pure ops
     def pure(self, op, j):
         if op == "int_pack":
-            return {"hex": A._pack_asn1_integer(j["v"]).hex()}
+            return {"hex": C.pack_integer(j["v"]).hex()}
         if op in ("int_read", "bool_read", "octets_read"):
             data = bytes.fromhex(j["hex"])
             r = ASN1Reader(data)
@@ -58,13 +58,13 @@ class Impl:
                 return {"err": C.err_name(e)}
             return {"ok": {"v": v, "rest": len(r.get_remaining_data())}}
         if op == "bool_pack":
-            return {"hex": A._pack_asn1_boolean(j["v"]).hex()}
+            return {"hex": C.pack_boolean(j["v"]).hex()}
         if op == "octets_pack":
-            return {"hex": A._pack_asn1_octet_string(bytes.fromhex(j["hex"])).hex()}
+            return {"hex": C.pack_octets(bytes.fromhex(j["hex"])).hex()}
         if op == "hdr_pack":
-            return {"hex": A._pack_asn1(TagClass(j["cls"]), j["cons"], j["num"], _FakeData(j["len"])).hex()}
+            return {"hex": C.pack_tlv(j["cls"], j["cons"], j["num"], _FakeData(j["len"])).hex()}
         if op == "tlv_pack":
-            return {"hex": A._pack_asn1(TagClass(j["cls"]), j["cons"], j["num"], bytes.fromhex(j["content"])).hex()}
+            return {"hex": C.pack_tlv(j["cls"], j["cons"], j["num"], bytes.fromhex(j["content"])).hex()}
         if op == "hdr_read":
             try:
                 h = ASN1Reader(bytes.fromhex(j["hex"])).peek_header()
@@ -92,7 +92,7 @@ class Impl:
         if op == "ftext":
             return {"hex": str(C.filter_from_json(j["filter"])).encode("utf-8", errors="surrogatepass").hex()}
         if op == "fparse":
-            from sansldap._filter import FilterSyntaxError
+            FilterSyntaxError = C.FilterSyntaxError
 
             text = "".join(chr(c) for c in j["cps"])
             try:
